@@ -6,6 +6,7 @@ import (
 	"net"
 	"os"
 	"regexp"
+	"runtime"
 	"strconv"
 	"strings"
 	"sync"
@@ -49,6 +50,9 @@ type fconn struct {
 	noWDL    int32 // Write calls not preceded by a SetWriteDeadline since the previous Write
 	wdlFresh bool
 	rt, wt   time.Duration
+	// real write deadlines (mode wt) reach the pipe only while the peer does not read: a write to a reading peer
+	// then never depends on how fast this machine is
+	realWDL func() bool
 }
 
 func (c *fconn) flag(p *bool) bool {
@@ -123,6 +127,9 @@ func (c *fconn) SetWriteDeadline(t time.Time) error {
 	if keep {
 		return nil
 	}
+	if c.realWDL != nil && !c.realWDL() {
+		return c.Conn.SetWriteDeadline(time.Now().Add(longTimeout))
+	}
 	return c.Conn.SetWriteDeadline(t)
 }
 
@@ -141,17 +148,29 @@ func (c *fconn) RemoteAddr() net.Addr { return pipeAddr(c.id) }
 
 type pipeListener struct {
 	ch   chan net.Conn
+	errs chan error
 	done chan struct{}
 	once sync.Once
 }
 
+// tempErr is an Accept error of the kind the loop retries (ITemporary)
+type tempErr struct{}
+
+func (tempErr) Error() string   { return "c16-temporary-accept-error" }
+func (tempErr) Temporary() bool { return true }
+func (tempErr) Timeout() bool   { return false }
+
+var errAcceptFatal = errors.New("c16-permanent-accept-error")
+
 func newPipeListener() *pipeListener {
-	return &pipeListener{ch: make(chan net.Conn), done: make(chan struct{})}
+	return &pipeListener{ch: make(chan net.Conn), errs: make(chan error), done: make(chan struct{})}
 }
 func (l *pipeListener) Accept() (net.Conn, error) {
 	select {
 	case c := <-l.ch:
 		return c, nil
+	case e := <-l.errs:
+		return nil, e
 	case <-l.done:
 		return nil, errListenerClosed
 	}
@@ -166,16 +185,22 @@ type cstate struct {
 	fc   *fconn   // nil in tcp mode
 	peer net.Conn // the client's end
 
-	mu       sync.Mutex
-	cond     *sync.Cond
-	s        *stcp.Session // learnt from the handler callbacks
-	exits    int
-	entered  int
-	reads    int
-	buf      []byte // bytes the peer has read
-	eof      bool   // the peer's read ended (EOF / reset / closed)
-	hold     bool
-	drainOut bool // the drainer goroutine has returned
+	mu      sync.Mutex
+	cond    *sync.Cond
+	s       *stcp.Session // learnt from the handler callbacks
+	e       *stcp.Echo    // echo worlds: learnt from RunEcho
+	running bool          // echo worlds: RunEcho has not returned
+	// how the handler's OnExit behaves for this session (environment assumption of the property: it returns)
+	exitPanics, exitBlocks bool
+	release                chan struct{}
+	exits                  int
+	entered                int
+	reads                  int
+	buf                    []byte // bytes the peer has read
+	eof                    bool   // the peer's read ended (EOF / reset / closed)
+	hold                   bool
+	slow                   int  // > 0: the peer reads at most that many bytes at a time
+	drainOut               bool // the drainer goroutine has returned
 
 	// what the script did to it (for the monitors)
 	accepted     [][]byte // payloads for which Send returned nil
@@ -185,6 +210,7 @@ type cstate struct {
 	readKilled   bool // a failing read / handler error / panic was delivered while the session could see it
 	writeFault   bool
 	isSession    bool
+	exitFaulty   bool // xpanic / xblock was applied: outside the property's assumptions, monitors stand down
 }
 
 func (cs *cstate) snapshot() (exits, reads int, buf []byte, eof bool, s *stcp.Session) {
@@ -211,8 +237,17 @@ func (cs *cstate) drainLoop() {
 		for cs.hold {
 			cs.cond.Wait()
 		}
+		chunk := len(b)
+		if cs.slow > 0 {
+			chunk = cs.slow // a slow reader: small reads, giving the processor away in between (no clock involved)
+		}
 		cs.mu.Unlock()
-		n, err := cs.peer.Read(b)
+		if chunk < len(b) {
+			for i := 0; i < 3; i++ {
+				runtime.Gosched()
+			}
+		}
+		n, err := cs.peer.Read(b[:chunk])
 		cs.mu.Lock()
 		cs.buf = append(cs.buf, b[:n]...)
 		if err != nil {
@@ -230,9 +265,15 @@ func (cs *cstate) drainLoop() {
 
 // ---------------------------------------------------------------- handler (the ISession of the manager)
 
-type handler struct {
+type registry struct {
 	mu   sync.Mutex
 	byID map[string]*cstate
+}
+
+// handler is the ISession installed in the manager (tag 1) or through UpdateHandler (tag 2): same behaviour.
+type handler struct {
+	*registry
+	tag int
 }
 
 func (h *handler) lookup(s *stcp.Session) *cstate {
@@ -282,7 +323,67 @@ func (h *handler) OnExit(s *stcp.Session) {
 	if cs := h.lookup(s); cs != nil {
 		cs.mu.Lock()
 		cs.exits++
+		pan, blk, rel := cs.exitPanics, cs.exitBlocks, cs.release
 		cs.mu.Unlock()
+		if pan {
+			panic("c16-onexit-panic")
+		}
+		if blk {
+			<-rel
+		}
+	}
+}
+
+// echoHandler is the IEcho of the echo worlds: it echoes 'd' bytes, ends on 'e' or on a read error, and then does
+// what an Echo user must do: close the connection and release the count.
+type echoHandler struct{ *registry }
+
+func (h echoHandler) RunEcho(e *stcp.Echo) {
+	id := e.RemoteAddr()
+	h.mu.Lock()
+	cs := h.byID[id]
+	h.mu.Unlock()
+	if cs == nil {
+		e.Close()
+		e.ReleaseRef()
+		return
+	}
+	cs.mu.Lock()
+	first := cs.e == nil
+	cs.e = e
+	cs.running = true
+	cs.entered++
+	cs.mu.Unlock()
+	if !first {
+		// a second RunEcho for the same connection (Start ran twice): leave it to the monitors (count, exits)
+		cs.mu.Lock()
+		cs.exits += 100
+		cs.mu.Unlock()
+	}
+	defer func() {
+		e.Close()
+		e.ReleaseRef()
+		cs.mu.Lock()
+		cs.exits++
+		cs.running = false
+		cs.mu.Unlock()
+	}()
+	var b [1]byte
+	for {
+		if err := e.Read(b[:]); err != nil {
+			return
+		}
+		switch b[0] {
+		case 'd':
+			cs.mu.Lock()
+			cs.reads++
+			cs.mu.Unlock()
+			if err := e.Send([]byte{'d'}); err != nil {
+				return
+			}
+		case 'e':
+			return
+		}
 	}
 }
 
@@ -296,23 +397,30 @@ const (
 )
 
 type world struct {
-	mode   string
-	max    int
-	rt, wt time.Duration
-	h      *handler
-	mgr    *stcp.SessionMgr
-	srv    *stcp.Server
-	pl     *pipeListener
-	tl     net.Listener
-	srvErr chan error
-	sess   []*cstate // accepted sessions, index = k of the script
-	all    []*cstate
-	rej    int
-	nconn  int
-	hits   []hit
-	late   int    // waits that ran into the ceiling
-	spin   bool   // a loop of the code under test never parks
-	dead   string // harness-level failure text, reported in every following line
+	mode    string
+	tcp     bool // the sessions run over loopback TCP (modes tcp, pub, publ, pubx)
+	echo    bool // Echo sessions behind the accept loop
+	noCount bool // the manager is out of reach (NewTCPSrvX creates it)
+	stopped bool // the accept loop has returned
+	max     int
+	rt, wt  time.Duration
+	h       *handler
+	mgr     *stcp.SessionMgr
+	emgr    *stcp.EchoMgr
+	srv     *stcp.Server
+	addr    string // tcp worlds: where the server listens
+	broken  bool   // an environment assumption of the property was broken on purpose (xpanic/xblock)
+	pl      *pipeListener
+	tl      net.Listener
+	srvErr  chan error
+	sess    []*cstate // accepted sessions, index = k of the script
+	all     []*cstate
+	rej     int
+	nconn   int
+	hits    []hit
+	late    int    // waits that ran into the ceiling
+	spin    bool   // a loop of the code under test never parks
+	dead    string // harness-level failure text, reported in every following line
 }
 
 type hit struct{ key, what string }
@@ -322,31 +430,133 @@ var lateTotal int
 var spinTotal int
 var spinsBefore, _ = strconv.Atoi(os.Getenv("C16_SPINS"))
 
+// accept-loop options of the pipe worlds: three consecutive temporary Accept errors stop the loop; tiny back-off
+var acceptOpts = []stcp.Option{stcp.WithAccMaxRetry(3), stcp.WithAccDelay(time.Microsecond), stcp.WithAccMaxDelay(4 * time.Microsecond)}
+
 func newWorld(max int, mode string) *world {
-	w := &world{mode: mode, max: max, rt: longTimeout, wt: longTimeout, h: &handler{byID: map[string]*cstate{}}}
+	w := &world{mode: mode, max: max, rt: longTimeout, wt: longTimeout, h: &handler{registry: &registry{byID: map[string]*cstate{}}, tag: 1}}
+	w.srvErr = make(chan error, 1)
+	maxOpt := stcp.WithMaxConn(int32(max))
 	switch mode {
 	case "rt":
 		w.rt = shortRead
 	case "wt":
 		w.wt = shortWrite
 	}
-	w.mgr = stcp.NewSessionMgr(w.h, stcp.WithReadTimeout(w.rt), stcp.WithWriteTimeout(w.wt))
-	w.srv = stcp.NewTCPSrv("c16", w.mgr)
-	w.srvErr = make(chan error, 1)
-	var ln net.Listener
-	if mode == "tcp" {
+	switch mode {
+	case "pipe", "rt", "wt":
+		w.mgr = stcp.NewSessionMgr(w.h, stcp.WithReadTimeout(w.rt), stcp.WithWriteTimeout(w.wt))
+		w.srv = stcp.NewTCPSrv("c16", w.mgr)
+		w.pl = newPipeListener()
+		go func() { w.srvErr <- w.srv.VerifServe(w.pl, append([]stcp.Option{maxOpt}, acceptOpts...)...) }()
+	case "echo":
+		w.echo = true
+		w.emgr = stcp.NewEchoMgr(echoHandler{w.h.registry}, stcp.WithReadTimeout(w.rt), stcp.WithWriteTimeout(w.wt))
+		w.srv = stcp.NewTCPSrv("c16", w.emgr)
+		w.pl = newPipeListener()
+		go func() { w.srvErr <- w.srv.VerifServe(w.pl, append([]stcp.Option{maxOpt}, acceptOpts...)...) }()
+	case "tcp":
+		w.tcp = true
+		w.mgr = stcp.NewSessionMgr(w.h, stcp.WithReadTimeout(w.rt), stcp.WithWriteTimeout(w.wt))
+		w.srv = stcp.NewTCPSrv("c16", w.mgr)
 		l, err := net.Listen("tcp", "127.0.0.1:0")
 		if err != nil {
 			w.dead = "listen:" + err.Error()
 			return w
 		}
-		w.tl, ln = l, l
-	} else {
-		w.pl = newPipeListener()
-		ln = w.pl
+		w.tl, w.addr = l, l.Addr().String()
+		go func() { w.srvErr <- w.srv.VerifServe(l, maxOpt) }()
+	case "pub", "publ", "pubx":
+		// the REAL public path: constructor, Start / LoopStart, startListen, option plumbing, DEFAULT manager timeouts.
+		// The public API cannot report a port chosen by the kernel, so a free port is picked first; if somebody
+		// else takes it in between, Start reports the error and another port is tried.
+		w.tcp = true
+		for try := 0; ; try++ {
+			probe, err := net.Listen("tcp", "127.0.0.1:0")
+			if err != nil {
+				w.dead = "listen:" + err.Error()
+				return w
+			}
+			w.addr = probe.Addr().String()
+			_ = probe.Close()
+			var errCh <-chan error
+			switch mode {
+			case "pub":
+				w.mgr = stcp.NewSessionMgr(w.h) // no options: the default read (20 s) and write (8 s) timeouts
+				w.srv = stcp.NewTCPSrv(w.addr, w.mgr)
+				errCh = w.srv.Start(maxOpt)
+			case "publ":
+				w.mgr = stcp.NewSessionMgr(w.h)
+				w.srv = stcp.NewTCPSrv(w.addr, w.mgr)
+				ch := make(chan error, 1)
+				srv := w.srv
+				go func() { ch <- srv.LoopStart(maxOpt) }()
+				errCh = ch
+			case "pubx":
+				w.noCount = true
+				w.rt = shortRead
+				w.srv = stcp.NewTCPSrvX(w.addr, w.h, stcp.WithReadTimeout(shortRead))
+				errCh = w.srv.Start(maxOpt)
+			}
+			// listening? (a probe connection would be a session: look at the socket table instead — a dial that is
+			// refused creates nothing, so poll with refused dials only until the port answers, then drop the probe)
+			up := false
+			deadline := time.Now().Add(ceiling)
+			for time.Now().Before(deadline) && !up {
+				select {
+				case e := <-errCh:
+					_ = e
+					deadline = time.Now() // bind failed: next port
+				default:
+					if tcpListening(w.addr) {
+						up = true
+					} else {
+						time.Sleep(200 * time.Microsecond)
+					}
+				}
+			}
+			if up {
+				go func() { w.srvErr <- <-errCh }()
+				break
+			}
+			if try >= 20 {
+				w.dead = "cannot start a public-path server on a free loopback port"
+				return w
+			}
+		}
 	}
-	go func() { w.srvErr <- w.srv.VerifServe(ln, stcp.WithMaxConn(int32(max))) }()
 	return w
+}
+
+// tcpListening reports whether some socket listens on addr, without connecting to it (/proc/net/tcp, state 0A).
+func tcpListening(addr string) bool {
+	host, port, err := net.SplitHostPort(addr)
+	if err != nil || host != "127.0.0.1" {
+		return false
+	}
+	p, _ := strconv.Atoi(port)
+	want := fmt.Sprintf("0100007F:%04X", p)
+	b, err := os.ReadFile("/proc/net/tcp")
+	if err != nil {
+		return false
+	}
+	for _, line := range strings.Split(string(b), "\n") {
+		f := strings.Fields(line)
+		if len(f) > 3 && f[1] == want && f[3] == "0A" {
+			return true
+		}
+	}
+	return false
+}
+
+func (w *world) count() int {
+	switch {
+	case w.emgr != nil:
+		return int(w.emgr.ConnCount())
+	case w.mgr != nil:
+		return int(w.mgr.ConnCount())
+	}
+	return -1
 }
 
 var loopRe = regexp.MustCompile(`stcp\.\(\*Session\)\.loop(?:Send|Receive)\((0x[0-9a-f]+)`)
@@ -364,6 +574,11 @@ func loopsOf() map[string]int {
 
 func (w *world) ended(cs *cstate, loops map[string]int) bool {
 	ex, _, _, _, s := cs.snapshot()
+	if w.echo {
+		cs.mu.Lock()
+		defer cs.mu.Unlock()
+		return ex >= 1 && !cs.running
+	}
 	if ex < 1 || s == nil {
 		return false
 	}
@@ -383,20 +598,27 @@ func (w *world) waitFor(cond func() bool) {
 	deadline := time.Now().Add(d)
 	sleep := 200 * time.Microsecond
 	for {
-		if w.mode != "tcp" {
+		if !w.tcp {
 			w.quiesce()
 			if w.dead != "" || w.spin {
 				return
 			}
 		}
 		if time.Now().After(deadline) {
+			// The expected observation did not arrive. If every goroutine of the code under test and of the harness is
+			// parked, nothing more will happen by itself: the line is reported as observed (a verdict). If something is
+			// still running, the machine was too slow for the ceiling: that is a harness error, never a verdict.
+			if !quietNow() {
+				w.dead = fmt.Sprintf("ceiling of %v exceeded while goroutines were still running (machine too slow?)", d)
+				return
+			}
 			w.late++
 			lateTotal++
 			return
 		}
 		if cond() {
 			// what made the condition true may still be unwinding: settle once more and look again
-			if w.mode == "tcp" {
+			if w.tcp {
 				return
 			}
 			w.quiesce()
@@ -414,9 +636,9 @@ func (w *world) waitFor(cond func() bool) {
 // settle brings the world to the next observation point after an op.
 func (w *world) settle(cond func() bool) {
 	switch w.mode {
-	case "pipe":
+	case "pipe", "echo":
 		w.quiesce()
-	case "rt":
+	case "rt", "pubx":
 		// every read deadline expires: wait until all sessions are over
 		w.waitFor(func() bool {
 			loops := loopsOf()
@@ -437,7 +659,10 @@ func (w *world) settle(cond func() bool) {
 			}
 			return true
 		})
-	case "tcp":
+	case "tcp", "pub", "publ":
+		if cond == nil {
+			cond = func() bool { return true }
+		}
 		w.waitFor(cond)
 	}
 }
@@ -449,10 +674,21 @@ func (w *world) deliver() *cstate {
 	w.nconn++
 	cs := &cstate{id: id, emptyAt: -1}
 	cs.cond = sync.NewCond(&cs.mu)
-	if w.mode == "tcp" {
+	cs.release = make(chan struct{})
+	if w.stopped {
+		return nil
+	}
+	select {
+	case e := <-w.srvErr:
+		w.srvErr <- e
+		w.stopped = true
+		return nil
+	default:
+	}
+	if w.tcp {
 		// the handler looks the connection up by the client's address: keep the registry locked until it is known
 		w.h.mu.Lock()
-		c, err := net.DialTimeout("tcp", w.tl.Addr().String(), ceiling)
+		c, err := net.DialTimeout("tcp", w.addr, ceiling)
 		if err != nil {
 			w.h.mu.Unlock()
 			return nil
@@ -467,6 +703,9 @@ func (w *world) deliver() *cstate {
 	}
 	a, b := net.Pipe()
 	cs.fc = &fconn{Conn: a, id: id, rt: w.rt, wt: w.wt}
+	if w.mode == "wt" {
+		cs.fc.realWDL = func() bool { cs.mu.Lock(); defer cs.mu.Unlock(); return cs.hold }
+	}
 	cs.peer = b
 	w.h.mu.Lock()
 	w.h.byID[id] = cs
@@ -481,7 +720,11 @@ func (w *world) deliver() *cstate {
 	return cs
 }
 
-func (cs *cstate) registered() bool { cs.mu.Lock(); defer cs.mu.Unlock(); return cs.s != nil }
+func (cs *cstate) registered() bool {
+	cs.mu.Lock()
+	defer cs.mu.Unlock()
+	return cs.s != nil || cs.e != nil
+}
 
 func (cs *cstate) closedSeen() bool {
 	if cs.fc != nil {
@@ -504,13 +747,22 @@ func (w *world) decided(cs *cstate) bool {
 	cs.mu.Lock()
 	s := cs.s
 	cs.mu.Unlock()
-	return w.mode != "tcp" || loopsOf()[fmt.Sprintf("%p", s)] == 2
+	return !w.tcp || s == nil || loopsOf()[fmt.Sprintf("%p", s)] == 2
 }
 
 // connectN delivers n connections back to back (no observation in between), then waits and classifies them in
 // the order they were delivered. Returns (accepted, rejected, lost).
 func (w *world) connectN(n int) (acc, rej, lost int) {
-	countBefore := int(w.mgr.ConnCount())
+	countBefore := w.count()
+	if w.noCount {
+		// the manager is out of reach: for the monitors use the harness's own book-keeping (sessions not yet exited)
+		countBefore = 0
+		for _, c := range w.sess {
+			if ex, _, _, _, _ := c.snapshot(); ex == 0 {
+				countBefore++
+			}
+		}
+	}
 	var cs []*cstate
 	for i := 0; i < n; i++ {
 		if c := w.deliver(); c != nil {
@@ -519,7 +771,7 @@ func (w *world) connectN(n int) (acc, rej, lost int) {
 			lost++
 		}
 	}
-	if w.mode == "pipe" {
+	if w.mode == "pipe" || w.mode == "echo" {
 		w.settle(nil)
 	} else {
 		w.waitFor(func() bool {
@@ -544,13 +796,16 @@ func (w *world) connectN(n int) (acc, rej, lost int) {
 			lost++
 		}
 	}
-	if w.max >= 0 && countBefore+acc > w.max && acc > 0 {
+	if w.max >= 0 && countBefore+acc > w.max && acc > 0 && !w.broken {
 		w.hit("C16:accept:surplus-not-closed", fmt.Sprintf("ConnCount()=%d, maxConn=%d, %d connection(s) arrived and %d session(s) were started", countBefore, w.max, n, acc))
 	}
-	if w.max >= 0 && countBefore >= w.max && lost > 0 {
+	if w.max >= 0 && countBefore >= w.max && lost > 0 && !w.stopped && !w.broken {
 		w.hit("C16:accept:surplus-not-closed", fmt.Sprintf("ConnCount()=%d >= maxConn=%d, a surplus connection was neither closed nor served", countBefore, w.max))
 	}
-	if acc > 0 && (w.mode == "rt" || w.mode == "wt") {
+	if w.max < 0 && acc > 0 {
+		w.hit("C16:accept:surplus-not-closed", fmt.Sprintf("maxConn=%d is negative, every connection is surplus, yet %d session(s) were started", w.max, acc))
+	}
+	if acc > 0 && (w.mode == "rt" || w.mode == "wt" || w.mode == "pubx") {
 		w.settle(nil)
 	}
 	return
@@ -625,7 +880,7 @@ func (w *world) peerWrite(cs *cstate, b byte) bool {
 	if cs.peerClosedBy {
 		return false
 	}
-	if w.mode == "tcp" {
+	if w.tcp {
 		_ = cs.peer.SetWriteDeadline(time.Now().Add(ceiling))
 		_, err := cs.peer.Write([]byte{b})
 		return err == nil
@@ -658,6 +913,9 @@ func (w *world) op(f []string) string {
 	cs := w.sess[k]
 	ex0, rd0, buf0, _, s := cs.snapshot()
 	wasOver := ex0 > 0
+	if w.echo && f[0] != "pdata" && f[0] != "herr" && f[0] != "pclose" && f[0] != "start" {
+		return "bad-op"
+	}
 	// over, and (tcp) the client has seen the server side close
 	endedCond := func() bool {
 		if !w.ended(cs, loopsOf()) {
@@ -709,7 +967,27 @@ func (w *world) op(f []string) string {
 		cs.closedLocal = true
 		w.settle(endedCond)
 	case "start":
-		s.Start()
+		if w.echo {
+			cs.e.Start()
+		} else {
+			s.Start()
+		}
+		w.settle(func() bool { return true })
+	case "uh":
+		// replace the session's handler by another one with the same behaviour (exercises UpdateHandler and the
+		// `s.rh != nil` branches of loopReceive and quit)
+		s.UpdateHandler(&handler{registry: w.h.registry, tag: 2})
+		w.settle(func() bool { return true })
+	case "xpanic", "xblock":
+		cs.mu.Lock()
+		if f[0] == "xpanic" {
+			cs.exitPanics = true
+		} else {
+			cs.exitBlocks = true
+		}
+		cs.mu.Unlock()
+		cs.exitFaulty = true
+		w.broken = true
 		w.settle(func() bool { return true })
 	case "pclose":
 		_ = cs.peer.Close()
@@ -723,7 +1001,7 @@ func (w *world) op(f []string) string {
 		cs.mu.Unlock()
 		w.settle(func() bool { return true })
 	case "hold":
-		if w.mode == "tcp" {
+		if w.tcp {
 			return "bad-op"
 		}
 		cs.mu.Lock()
@@ -741,7 +1019,7 @@ func (w *world) op(f []string) string {
 		}
 		w.settle(func() bool { return cs.peerClosedBy || endedCond() })
 	case "cerr":
-		if w.mode == "tcp" {
+		if w.tcp {
 			return "bad-op"
 		}
 		cs.fc.mu.Lock()
@@ -749,7 +1027,7 @@ func (w *world) op(f []string) string {
 		cs.fc.mu.Unlock()
 		w.settle(nil)
 	case "rerr", "rto", "rdl", "werr", "wto", "wdl":
-		if w.mode == "tcp" {
+		if w.tcp {
 			return "bad-op"
 		}
 		fc := cs.fc
@@ -803,13 +1081,25 @@ func hexOf(b []byte) string {
 // observe prints the P-observables of the world and runs the per-observation monitors.
 func (w *world) observe(final bool) string {
 	loops := loopsOf()
-	n := int(w.mgr.ConnCount())
+	n := w.count()
 	var sb strings.Builder
-	fmt.Fprintf(&sb, " n=%d rej=%d", n, w.rej)
+	if w.noCount {
+		fmt.Fprintf(&sb, " n=? rej=%d", w.rej)
+	} else {
+		fmt.Fprintf(&sb, " n=%d rej=%d", n, w.rej)
+	}
 	started, over := 0, 0
 	for k, cs := range w.sess {
 		ex, rd, buf, eof, s := cs.snapshot()
 		l := loops[fmt.Sprintf("%p", s)]
+		if w.echo {
+			l = 0
+			cs.mu.Lock()
+			if cs.running {
+				l = 1
+			}
+			cs.mu.Unlock()
+		}
 		closes := 0
 		if cs.fc != nil {
 			closes = int(atomic.LoadInt32(&cs.fc.closes))
@@ -823,13 +1113,21 @@ func (w *world) observe(final bool) string {
 		if ex > 0 {
 			over++
 		}
-		w.monitorSession(k, cs, ex, closes, l, buf, final)
+		if !cs.exitFaulty {
+			w.monitorSession(k, cs, ex, closes, l, buf, final)
+		}
+	}
+	if w.noCount || w.broken {
+		return sb.String() // no ConnCount to look at / an assumption of the property was broken on purpose
 	}
 	if n != started-over {
 		w.hit("C16:count:unbalanced", fmt.Sprintf("ConnCount()=%d with %d sessions started and %d exited (expected %d)", n, started, over, started-over))
 	}
 	if w.max >= 0 && n > w.max {
 		w.hit("C16:accept:count-exceeds-max", fmt.Sprintf("ConnCount()=%d > maxConn=%d", n, w.max))
+	}
+	if w.max < 0 && n != 0 {
+		w.hit("C16:accept:count-exceeds-max", fmt.Sprintf("ConnCount()=%d with a negative maxConn=%d (nothing may be admitted)", n, w.max))
 	}
 	return sb.String()
 }
@@ -849,7 +1147,7 @@ func (w *world) monitorSession(k int, cs *cstate, exits, closes, loops int, got 
 	if exits > 1 {
 		w.hit("C16:quit:onexit-more-than-once", fmt.Sprintf("session %d: OnExit ran %d times", k, exits))
 	}
-	if len(got) > len(all) || string(all[:len(got)]) != string(got) {
+	if !w.echo && (len(got) > len(all) || string(all[:len(got)]) != string(got)) {
 		w.hit("C16:flush:corrupt-or-reordered", fmt.Sprintf("session %d: peer read %x, accepted by Send %x", k, got, all))
 	}
 	cs.mu.Lock()
@@ -863,7 +1161,7 @@ func (w *world) monitorSession(k int, cs *cstate, exits, closes, loops int, got 
 	if cs.readKilled {
 		why = append(why, "read error/timeout/handler error/panic")
 	}
-	if w.mode == "rt" {
+	if w.mode == "rt" || w.mode == "pubx" {
 		why = append(why, "read timeout (real, 60ms)")
 	}
 	if cs.closedLocal && (!holding || !pendingBytes) {
@@ -888,7 +1186,7 @@ func (w *world) monitorSession(k int, cs *cstate, exits, closes, loops int, got 
 		}
 	}
 	// flush: the only terminating event is a local Close, the peer reads
-	if cs.closedLocal && !cs.peerClosedBy && !cs.readKilled && !cs.writeFault && w.mode != "rt" && w.mode != "wt" && !holding && (closes > 0 || final) {
+	if cs.closedLocal && !cs.peerClosedBy && !cs.readKilled && !cs.writeFault && w.mode != "rt" && w.mode != "wt" && w.mode != "pubx" && !w.echo && !holding && (closes > 0 || final) {
 		if len(got) < len(all) && string(all[:len(got)]) == string(got) {
 			key := "C16:flush:accepted-bytes-lost"
 			if cs.emptyAt >= 0 && len(got) >= len(flatten(cs.accepted[:cs.emptyAt])) {
@@ -927,7 +1225,11 @@ func (w *world) destroy() {
 	if w.tl != nil {
 		_ = w.tl.Close()
 	}
+	if w.tl == nil && w.pl == nil && w.srv != nil && w.dead == "" {
+		_ = w.srv.Close() // public path: the server owns its listener
+	}
 	for _, cs := range w.all {
+		close(cs.release)
 		if cs.fc != nil {
 			_ = cs.fc.Conn.Close()
 		}
@@ -956,7 +1258,7 @@ func (w *world) destroy() {
 			cs.mu.Unlock()
 		}
 		if !busy {
-			if w.mode == "tcp" {
+			if w.tcp {
 				if len(loopsOf()) == 0 {
 					break
 				}
@@ -966,4 +1268,33 @@ func (w *world) destroy() {
 		}
 		time.Sleep(200 * time.Microsecond)
 	}
+}
+
+// acceptError makes the listener's Accept return an error: a temporary one (the loop backs off and retries, up to
+// acceptMaxRetry consecutive times) or a permanent one (the loop returns). Result: whether the loop still runs.
+func (w *world) acceptError(permanent bool) string {
+	if w.pl == nil {
+		return "bad-op"
+	}
+	if !w.stopped {
+		var e error = tempErr{}
+		if permanent {
+			e = errAcceptFatal
+		}
+		select {
+		case w.pl.errs <- e:
+		case <-time.After(ceiling):
+		}
+		w.settle(nil)
+		select {
+		case e := <-w.srvErr:
+			w.srvErr <- e
+			w.stopped = true
+		default:
+		}
+	}
+	if w.stopped {
+		return "stop"
+	}
+	return "run"
 }
